@@ -73,6 +73,19 @@ func ZZ_C07_Get(plan, limit, noErrors, budget int) {
 			}
 		}
 	}
+	// V5: a log is attached only to the block whose hash it names: every
+	// log of an accepted answer names the hash of the block it went to
+	for _, it := range zzGhost {
+		if it.kind != 'l' || len(it.bhash) != 32 {
+			continue
+		}
+		for bi := range blocks {
+			b := &blocks[bi]
+			if len(b.Header.Hash) == 32 {
+				zzvrf.Assert(zzvrf.Implies(b.Num() == it.blockNum, zzvrf.BytesEq(b.Header.Hash, it.bhash)), "V5-log-names-the-hash-of-its-block")
+			}
+		}
+	}
 	// V3: every item the node reported is attached to the block and
 	// transaction it names, unchanged; nothing else is attached.
 	for gi, it := range zzGhost {
